@@ -667,19 +667,70 @@ def rule_G6(ctx, rule: str = "G6") -> None:
                         "call a client-streaming RPC with an empty iterator")
     f = mod.func("ServiceStub._stream_stream")
     g = CFG(f)
-    loops = [nd for nd in g.nodes if nd.kind == "loop" and isinstance(nd.stmt, ast.AsyncFor)]
+    loops = [nd for nd in g.nodes if nd.kind == "loop" and isinstance(nd.stmt, (ast.AsyncFor, ast.While))]
     cancels = {nd.id for nd in _stmt_nodes(g, lambda s: _calls(s, ".cancel"))}
     ok = bool(loops) and bool(cancels)
+    # boolean flags of the function (only ever assigned True / False): tests on them are followed with their known value,
+    # so that `finally: if not exhausted: task.cancel()` counts as cancelling on every exit but the normal one
+    flag_vals: Dict[str, Set[bool]] = {}
+    non_const: Set[str] = set()
+    for n_ in ast.walk(f):
+        if isinstance(n_, ast.Assign) and len(n_.targets) == 1 and isinstance(n_.targets[0], ast.Name):
+            if isinstance(n_.value, ast.Constant) and isinstance(n_.value.value, bool):
+                flag_vals.setdefault(n_.targets[0].id, set()).add(n_.value.value)
+            else:
+                non_const.add(n_.targets[0].id)
+        elif isinstance(n_, (ast.AugAssign, ast.AnnAssign, ast.For, ast.AsyncFor, ast.With, ast.AsyncWith)):
+            tgts = [n_.target] if hasattr(n_, "target") else [it.optional_vars for it in n_.items if it.optional_vars is not None]
+            for tg in tgts:
+                for x in ast.walk(tg):
+                    if isinstance(x, ast.Name) and isinstance(x.ctx, ast.Store):
+                        non_const.add(x.id)
+    flags = set(flag_vals) - non_const
+
+    def flag_test(test: ast.AST):
+        neg = False
+        while isinstance(test, ast.UnaryOp) and isinstance(test.op, ast.Not):
+            neg, test = not neg, test.operand
+        return (test.id, neg) if isinstance(test, ast.Name) and test.id in flags else None
+
+    region: Set[int] = set()
     for lp in loops:
-        # every exceptional edge out of the response loop region reaches raise_exit only through cancel
-        body = g.reachable([lp.id], avoid=cancels, labels=None)
-        region_nodes = [i for i in body if g.nodes[i].stmt is not None and any(g.nodes[i].stmt is x for x in ast.walk(lp.stmt))]
-        for i in region_nodes + [lp.id]:
-            for t, lab in g.succ[i]:
-                if not normal_edge(lab):
-                    r = g.reachable([t], avoid=cancels)
-                    if g.raise_exit.id in r:
-                        ok = False
+        region |= {nd.id for nd in g.nodes if nd.stmt is not None and any(nd.stmt is x for x in ast.walk(lp.stmt))} | {lp.id}
+    # search over (node, flag state, left-the-response-loop-exceptionally, cancelled)
+    start = (g.entry.id, frozenset(), False, False)
+    seen = {start}
+    work = [start]
+    steps = 0
+    while work and ok:
+        nid, st, exc, cancelled = work.pop()
+        steps += 1
+        if steps > 200000:
+            raise AnalysisError("G6: flag-aware search did not terminate")
+        nd = g.nodes[nid]
+        if nid == g.raise_exit.id and exc and not cancelled:
+            ok = False
+            break
+        state = dict(st)
+        for t, lab in g.succ[nid]:
+            st2 = dict(state)
+            if normal_edge(lab) and nd.kind == "stmt" and isinstance(nd.stmt, ast.Assign) and len(nd.stmt.targets) == 1 and isinstance(nd.stmt.targets[0], ast.Name) \
+                    and nd.stmt.targets[0].id in flags:
+                st2[nd.stmt.targets[0].id] = nd.stmt.value.value     # type: ignore[attr-defined]
+            if nd.kind == "test" and isinstance(nd.stmt, ast.If) and lab in ("true", "false"):
+                ft = flag_test(nd.stmt.test)
+                if ft is not None and ft[0] in state:
+                    val = state[ft[0]] != ft[1]
+                    if (lab == "true") != val:
+                        continue
+            exc2 = exc or (not normal_edge(lab) and nid in region)
+            c2 = cancelled or (t in cancels)
+            key = (t, frozenset(st2.items()), exc2, c2)
+            if key not in seen:
+                seen.add(key)
+                work.append(key)
+    if not region:
+        ok = False
     if ok:
         ctx.proved(rule, "_stream_stream:cancel-sender-on-error", mod.loc(f))
     else:
